@@ -244,9 +244,10 @@ func Thorough() bool { return W != nil && W.Thorough }
 // (never used to discharge anything). No-op natively.
 func Hint(cond bool) {}
 
-// NearDec: equality of two decimals up to tol. In the engine's ideal-Q interpretation it is
-// EXACT equality (the identity must hold for all reals); natively (replay with the real
-// rounding library) it tolerates tol, so that only violations beyond the rounding budget reproduce.
+// NearDec: equality of two decimals up to the tolerance tol that the property grants (whole
+// base units of truncation plus the relative error of the 18-digit library). The same
+// tolerance applies in the engine (ideal-Q: the identity must hold over the reals up to tol)
+// and in the native replay, so an ideal counterexample exceeds what rounding can explain.
 func NearDec(a, b, tol math.LegacyDec) bool { return a.Sub(b).Abs().LTE(tol) }
 
 // LeqDec: a <= b (ideal: exact; native: up to tol).
@@ -255,3 +256,7 @@ func LeqDec(a, b, tol math.LegacyDec) bool { return a.LTE(b.Add(tol)) }
 // Overflow switches the engine's modelling of the fixed-point library's overflow panics
 // (bit length > 256 / 315) on or off for the rest of the path. No-op natively (the real library panics by itself).
 func Overflow(on bool) {}
+
+// UFWindow asks the engine to relate each new application of an abstracted nonlinear
+// operator to the n previous ones by monotonicity lemmas (more precise, slower). No-op natively.
+func UFWindow(n int) {}
